@@ -124,8 +124,8 @@ fn admissible<O>(log: &[OpRec<O>], know: &BTreeSet<usize>, i: usize, disc: u64) 
 
 fn run_case<S: Sut>(id: &str, disc: u64, cmds: &[Vec<u64>], t: &mut Out) {
     t.line(&format!("(case {} {} {})", id, S::NAME, disc));
-    let mut reps: Vec<S> = vec![S::new(), S::new()];
-    let mut know: Vec<BTreeSet<usize>> = vec![BTreeSet::new(), BTreeSet::new()];
+    let mut reps: Vec<S> = vec![S::new(), S::new(), S::new()];
+    let mut know: Vec<BTreeSet<usize>> = vec![BTreeSet::new(), BTreeSet::new(), BTreeSet::new()];
     let mut log: Vec<OpRec<S::Op>> = Vec::new();
     let mut tainted = false;
     for (ci, c) in cmds.iter().enumerate() {
